@@ -137,6 +137,39 @@ fn walk_cycle(rows: &[Row], k: i64, one_day: &Duration, day_settings: Difference
             chk!("kernel.dim", temporal_rs::verif::iso_days_in_month(y as i32, r.m) as u16, r.dim);
             if r.m == 1 && r.d == 1 { chk!("kernel.days_for_year", temporal_rs::verif::epoch_days_for_year(y as i32) as i64, n); }
             chk!("kernel.year_of_ms", temporal_rs::verif::epoch_time_to_epoch_year(n * 86_400_000) as i64, y);
+            // the last day of a month: day numbers beyond it are clamped to it under constrain and refused under reject
+            if r.d as u16 == r.dim {
+                for dd in (r.d + 1)..=31u8 {
+                    match PlainDate::new_with_overflow(y as i32, r.m, dd, Calendar::default(), ArithmeticOverflow::Constrain) {
+                        Ok(dc) => { chk!("constrain.dim", (dc.year() as i64, dc.month(), dc.day()), (y, r.m, r.d)); }
+                        Err(e) => out.push(("constrain.dim", json!("ok"), json!(crate::proj::kind_of(&e)))),
+                    }
+                    match PlainDate::new_with_overflow(y as i32, r.m, dd, Calendar::default(), ArithmeticOverflow::Reject) {
+                        Ok(dr) => out.push(("reject.dim", json!("range"), json!([dr.year(), dr.month() as i32, dr.day() as i32]))),
+                        Err(e) => { chk!("reject.dim", crate::proj::kind_of(&e), "range"); }
+                    }
+                }
+            }
+            // the same month and day in years that differ by a power of two or a cycle length, then this day again: an answer kept
+            // between calls under a shortened key (a memo of the last week computation, say) shows as a wrong second answer
+            if r.d == 1 || r.d == 15 || r.d as u16 == r.dim {
+                for dy in [1i64, 4, 100, 256, 400, 65536, -65536, 131072] {
+                    let y2 = y + dy;
+                    if r.m == 2 && r.d == 29 { continue; }
+                    let n2 = crate::gen::days_from_civil(y2, r.m as i64, r.d as i64);
+                    if n2 < MIN_DAY || n2 > MAX_DAY { continue; }
+                    let i2 = (n2 - rows[0].n).rem_euclid(CYCLE) as usize;
+                    let k2 = (n2 - rows[0].n).div_euclid(CYCLE);
+                    let r2 = rows[i2];
+                    assert!(r2.y + 400 * k2 == y2 && r2.m == r.m && r2.d == r.d, "HARNESS: cycle table lookup");
+                    if let Ok(d2) = PlainDate::try_new(y2 as i32, r.m, r.d, Calendar::default()) {
+                        chk!("alias.week", (d2.week_of_year().ok().flatten(), d2.year_of_week().ok().flatten().map(|v| v as i64), d2.day_of_week(), d2.day_of_year(), d2.days_in_month(), d2.in_leap_year()),
+                             (Some(r2.week), Some(y2 + r2.wyoff), r2.dow, r2.doy, r2.dim, r2.leap));
+                        chk!("alias.again", (date.week_of_year().ok().flatten(), date.year_of_week().ok().flatten().map(|v| v as i64), date.day_of_week(), date.day_of_year(), date.days_in_month(), date.in_leap_year()),
+                             (Some(r.week), Some(y + r.wyoff), r.dow, r.doy, r.dim, r.leap));
+                    }
+                }
+            }
             // successor
             if n < MAX_DAY {
                 match date.add(one_day, None) {
